@@ -49,7 +49,10 @@ def spec_from_seed(run_seed, tier):
 
     def rep(m):
         Mn = rnd.choice([60, 100, 160, 240])
-        Mw = int(Mn * rnd.choice([1.1, 1.3, 1.6]))
+        D = rnd.choice([1.1, 1.3, 1.6, 1.1, 1.3, 1.6, 1.004])
+        if D < 1.01:
+            Mn = rnd.choice([500, 800])  # nearly monodisperse grade: Mw - Mn of a few units
+        Mw = max(int(Mn * D), Mn + 1)
         return f"|schulz_zimm({Mw}, {Mn})|"
 
     text = re.sub(r"\|[a-z_]+\([^)]*\)\|", rep, text)
